@@ -58,7 +58,25 @@ func ruleTruncateShapes(c *eng.Ctx) {
 	}
 	inRange := eng.CmpEdges(fn, isPhi, eng.Len(list), eng.LT)
 	g2, _ := eng.GuardedBy(fn, laterDel.(ssa.Instruction), inRange)
-	c.Check(g2 && len(inRange) > 0 && eng.ExactCmp(fn, isPhi, eng.Len(list), eng.LT), "later segments are deleted for i < len(l.segments)", c.Pos(laterDel.(ssa.Instruction)), "loop bound i < len(l.segments), body on the < edge", "the loop deleting the segments after the one holding the offset does not run exactly over idx+1 … len(l.segments)-1")
+	okRange := g2 && len(inRange) > 0 && eng.ExactCmp(fn, isPhi, eng.Len(list), eng.LT)
+	if !okRange {
+		// the same range walked from the newest end: i starts at len-1 and the body runs on i > idx
+		idxV := func(v ssa.Value) bool { return eng.Call(1, cl+"findSegment")(v) || eng.Call(-1, cl+"findSegment")(v) }
+		above := eng.CmpEdges(fn, isPhi, idxV, eng.GT)
+		g3, _ := eng.GuardedBy(fn, laterDel.(ssa.Instruction), above)
+		startsAtEnd := false
+		if ia := indexOfLoad(laterDel.Common().Args[0]); ia != nil {
+			if ph, ok := ia.Index.(*ssa.Phi); ok {
+				for _, e := range ph.Edges {
+					if eng.Bin(token.SUB, eng.Len(list), eng.IntConst(1))(e) {
+						startsAtEnd = true
+					}
+				}
+			}
+		}
+		okRange = g3 && len(above) > 0 && startsAtEnd && eng.ExactCmp(fn, isPhi, idxV, eng.GT)
+	}
+	c.Check(okRange, "later segments are deleted for i < len(l.segments)", c.Pos(laterDel.(ssa.Instruction)), "loop bound i < len(l.segments), body on the < edge", "the loop deleting the segments after the one holding the offset does not run exactly over idx+1 … len(l.segments)-1")
 
 	// (3) the segment holding the offset is deleted exactly when it starts at the offset and is not the first one;
 	// otherwise it is rewritten
